@@ -77,3 +77,95 @@ func init() {
 		return nil
 	})
 }
+
+// ---- reflect: only ValueOf(x).Kind() and .Len() (what PeriodicalExecutor.hasTasks needs, DESIGN 2.4)
+
+type reflVal struct{ v iface }
+
+func reflKind(t types.Type) uint {
+	if t == nil {
+		return 0 // Invalid
+	}
+	switch u := t.Underlying().(type) {
+	case *types.Basic:
+		switch u.Kind() {
+		case types.Bool:
+			return 1
+		case types.Int:
+			return 2
+		case types.Int8:
+			return 3
+		case types.Int16:
+			return 4
+		case types.Int32:
+			return 5
+		case types.Int64:
+			return 6
+		case types.Uint:
+			return 7
+		case types.Uint8:
+			return 8
+		case types.Uint16:
+			return 9
+		case types.Uint32:
+			return 10
+		case types.Uint64:
+			return 11
+		case types.Uintptr:
+			return 12
+		case types.Float32:
+			return 13
+		case types.Float64:
+			return 14
+		case types.Complex64:
+			return 15
+		case types.Complex128:
+			return 16
+		case types.String:
+			return 24
+		case types.UnsafePointer:
+			return 26
+		}
+	case *types.Array:
+		return 17
+	case *types.Chan:
+		return 18
+	case *types.Signature:
+		return 19
+	case *types.Interface:
+		return 20
+	case *types.Map:
+		return 21
+	case *types.Pointer:
+		return 22
+	case *types.Slice:
+		return 23
+	case *types.Struct:
+		return 25
+	}
+	panic(unsupported{"reflect.Kind of " + t.String()})
+}
+
+func init() {
+	reg("reflect.ValueOf", func(fr *frame, a []value) value {
+		return reflVal{a[0].(iface)}
+	})
+	reg("(reflect.Value).Kind", func(fr *frame, a []value) value {
+		return reflKind(a[0].(reflVal).v.t)
+	})
+	reg("(reflect.Value).Len", func(fr *frame, a []value) value {
+		switch x := a[0].(reflVal).v.v.(type) {
+		case []value:
+			return len(x)
+		case array:
+			return len(x)
+		case string:
+			return len(x)
+		case *gmap:
+			return x.len()
+		case *channel:
+			return x.length()
+		}
+		panic(unsupported{"reflect.Value.Len of this kind"})
+	})
+}
